@@ -97,9 +97,42 @@ static void dump(void)
 	}
 	vh_add("|h%ld", live);
 }
+/* node lookup by name: <id> L <names "," separated> <start> <pos> <key>
+ * nodes are created with mpt_node_new(strlen+1) (so names of every length up to and beyond the
+ * inline capacity of the 64/128/256 byte node ladder occur) and linked as siblings */
+static void locate_case(char **tok)
+{
+	MPT_STRUCT(node) *n[64], *r;
+	char *names = tok[2], *p, *save = 0;
+	int cnt = 0, i, start = atoi(tok[3]), pos = atoi(tok[4]);
+	size_t klen;
+	uint8_t *key;
+	for (p = strtok_r(names, ",", &save); p && cnt < 64; p = strtok_r(0, ",", &save)) {
+		size_t len;
+		uint8_t *d = get_data(p, &len, 1);
+		if (!(n[cnt] = mpt_node_new(len + 1))) { vh_tok("F:nomem"); return; }
+		if (!mpt_identifier_set(&n[cnt]->ident, (const char *) d, -1)) { vh_tok("F:noset"); return; }
+		free(d);
+		cnt++;
+	}
+	for (i = 0; i < cnt; i++) {
+		n[i]->prev = i ? n[i - 1] : 0;
+		n[i]->next = i + 1 < cnt ? n[i + 1] : 0;
+	}
+	key = get_data(tok[5], &klen, 1);
+	r = (start < cnt) ? mpt_node_locate(n[start], pos, key, klen, -1) : 0;
+	if (!r) vh_tok("F:-");
+	else {
+		for (i = 0; i < cnt && n[i] != r; i++) ;
+		vh_tok("F:%d", i);
+	}
+	free(key);
+	for (i = 0; i < cnt; i++) { mpt_identifier_set(&n[i]->ident, 0, 0); free(n[i]); }
+}
 static void run_case(int ntok, char **tok)
 {
 	int t = 1, i;
+	if (ntok >= 6 && !strcmp(tok[1], "L")) { locate_case(tok); return; }
 	__sanitizer_install_malloc_and_free_hooks(hook_malloc, hook_free);
 	for (; t < ntok && strcmp(tok[t], "--"); t++) {
 		MPT_STRUCT(identifier) *id;
